@@ -444,6 +444,14 @@ func (env *Env) execBlock(list []ast.Stmt) ([]*Val, bool) {
 						for i, l := range x.Lhs {
 							if o := objOf(info, l); o != nil {
 								env.Vars[o] = vals[i]
+							} else if lx, isSel := ast.Unparen(l).(*ast.SelectorExpr); isSel {
+								base := env.eval(lx.X)
+								for base.Ptr != nil {
+									base = base.Ptr
+								}
+								if base.Fields != nil {
+									base.Fields[lx.Sel.Name] = vals[i]
+								}
 							}
 						}
 						continue
